@@ -639,7 +639,7 @@ PROPS["C20"] = {
              "Configure returned must not be visible 150 ms later without Refresh() and must be visible after it (F22); in half of the rounds the harness owns the "
              "schedule: it holds the cache's exported mutex while it produces the events (the watcher goroutine has taken one off its channel and waits for the mutex), "
              "starts Configure in that state and releases both after a drawn 0..2 ms. "
-             "Half of the checks first ask Refresh() and GetErrors() only, before any device query, and compare the file-level error keys with a new cache's. "
+             "Half of the checks first ask Refresh() and GetErrors() only, before any device query, and compare the file-level error keys with a new cache's; one in three (auto mode, with or without a watcher) first asks GetDevice only, for the devices listed at the previous check and those a new cache has now. "
              "Non-trivial iff >= 3 reconfigurations including an auto switch or a directory-list change, or a shortage window (rapid); "
              ">= 2 cdi.Configure calls (defcache); distinct = distinct histories."),
     "assumptions": ["known finding F16 (partial shortage with a reusable watcher) is excluded by construction and probed separately (unit known-f16)",
